@@ -12,6 +12,7 @@ import Driver.Obu
 import Driver.CopyIn
 import Driver.Sse
 import Driver.ApiProto
+import Driver.ObuWalk
 
 def main (args : List String) : IO UInt32 := do
   match args with
@@ -29,4 +30,5 @@ def main (args : List String) : IO UInt32 := do
   | ["copyin"] => Driver.copyInMain; return 0
   | ["sse"] => Driver.sseMain; return 0
   | ["apiproto"] => Driver.apiProtoMain; return 0
+  | ["obuwalk"] => Driver.obuWalkMain; return 0
   | _ => IO.eprintln "usage: svtmodel <subcommand>  (input on stdin, one op per line)"; return 2
